@@ -118,7 +118,7 @@ func (rw *Rewriter) stmt(s Stmt) Stmt {
 	switch x := s.(type) {
 	case nil:
 		return nil
-	case Comment, Break, Continue:
+	case Comment, Raw, Break, Continue:
 		return s
 	case VarDecl:
 		kind := "untyped-init"
